@@ -133,6 +133,87 @@ def code_leg(ctx, binp, n):
     ctx.leg("code:interp.Runner builtins (worker subprocess) vs Interp/Builtins.v run_calls (vm_compute in kernel)", total, mism)
 
 
+CASES2_HEAD = CASES_HEAD + """
+Open Scope Z_scope.
+Fixpoint apply_unsets (ks : list Z) (p : list str * list Z) : res (list str * list Z) :=
+  match ks with
+  | [] => Ok p
+  | k :: r => match unset_indexed (fst p) (snd p) k with
+              | Ok (Some q) => apply_unsets r q
+              | Ok None => apply_unsets r p
+              | Err e => Err e
+              | Panic => Panic
+              end
+  end.
+Definition GOSH : str := [103;111;115;104]%N.
+Definition indexes_of (l : list str) (ix : list Z) : list Z :=
+  if is_empty ix then map Z.of_nat (seq 0 (length l)) else ix.
+(* v, params, arr, unsets, off, len, digit, Go panicked?, Go __obs vectors *)
+Definition ecase := (str * list str * list str * list Z * Z * option Z * N * bool * list (list str))%type.
+Definition expected (c : ecase) : res (list (list str)) :=
+  let '(v, ps, arr, ks, off, len, digit, _, _) := c in
+  match apply_unsets ks (arr, []) with
+  | Ok (l, ix) =>
+    match slice_str v true (Some off) len, slice_elems GOSH ps [] true (Some off) len,
+          slice_elems GOSH l ix false (Some off) len, positional digit (set_params (init_state []) ps) with
+    | Ok s1, Ok s2, Ok s3, Ok d =>
+        (* s1 = None: "substring expression < 0", the command fails and __obs is not called *)
+        Ok ([ [] :: l; [] :: map itoa_c (indexes_of l ix) ] ++ (match s1 with Some x => [[[]; x]] | None => [] end) ++
+            [ [] :: s2; [] :: s3; [[]; match d with Some x => 83%N :: x | None => [85%N] end] ])
+    | _, _, _, _ => Panic
+    end
+  | _ => Panic
+  end.
+Definition agrees2 (c : ecase) : bool :=
+  let '(_, _, _, _, _, _, _, gopanic, goobs) := c in
+  match expected c with
+  | Panic => gopanic
+  | Err _ => false
+  | Ok ev => negb gopanic && obs_eqb ev goobs
+  end.
+Fixpoint mism2 (i : nat) (cs : list ecase) : list nat :=
+  match cs with [] => [] | c :: rest => if agrees2 c then mism2 (S i) rest else i :: mism2 (S i) rest end.
+"""
+
+
+def code_leg2(ctx, binp, n):
+    rc, rows, err = ctx.jsonl([binp, "code2", "-seed", str(ctx.seed), "-n", str(n)], timeout=1500)
+    rows = [r for r in rows if "exp" in r]
+    if rc != 0 or not rows:
+        ctx.broken.append(("harness-run", "c28 code2 harness failed rc=%d %s" % (rc, err[-800:])))
+        return
+    usable = [r for r in rows if not (r.get("hang") or r.get("parse_err") or r.get("timeout") or (r.get("crash") and not r.get("panic")))]
+    ctx.extra["code_leg2_unusable"] = len(rows) - len(usable)
+    items = []
+    for r in usable:
+        e = r["exp"]
+        if r.get("panic"):
+            ctx.fail("modelled_expansion_panics", {"src": bytes.fromhex(r["src"]).decode("utf-8", "replace")}, None,
+                     {"msg": r.get("msg"), "where": r.get("where")})
+        obs = coq_list([coq_strs(o) for o in (r.get("obs") or [])])
+        items.append("(%s, %s, %s, %s, (%d)%%Z, %s, %d%%N, %s, %s)" % (
+            coq_bytes(e["v"]), coq_strs(e.get("params")), coq_strs(e.get("arr")),
+            coq_list(["(%d)%%Z" % k for k in (e.get("unsets") or [])]), e["off"],
+            ("(Some (%d)%%Z)" % e["len"]) if e.get("has_len") else "None", 48 + e["digit"],
+            "true" if r["panic"] else "false", obs))
+        ctx.count(1, [r["src"]])
+    text = CASES2_HEAD + "Open Scope N_scope.\nDefinition cases2 : list ecase := %s.\nDefinition M := Eval vm_compute in mism2 0 cases2.\nPrint M.\n" % coq_list(items)
+    ok, out = ctx.coq_cases("c28x_%d" % ctx.seed, text)
+    m = re.search(r"M\s*=\s*(\[[^\]]*\])", out)
+    if not ok or not m:
+        ctx.broken.append(("correspondence:code2-eval", "coqc on generated cases failed: " + out[-800:]))
+        return
+    mism = []
+    for i in [int(x) for x in re.findall(r"\d+", m.group(1))]:
+        r = usable[i]
+        mism.append({"src": bytes.fromhex(r["src"]).decode("utf-8", "replace"), "go_panic": r["panic"],
+                     "go_obs": [[bytes.fromhex(x).decode("utf-8", "replace") for x in o] for o in (r.get("obs") or [])]})
+    if usable:
+        ctx.sample({"expansion_program": bytes.fromhex(usable[0]["src"]).decode("utf-8", "replace")[:500]})
+    ctx.leg("code:${v:o:l} ${@:o:l} ${a[@]:o:l} $N unset 'a[k]' (worker subprocess) vs slice_str/slice_elems/positional/unset_indexed (vm_compute in kernel)",
+            len(usable), mism)
+
+
 WITNESSES = [
     # the two defects repaired by fix: commits; they must not panic any more
     {"ID": "fixed-shift", "Lang": "bash", "Src": "set -- a b; shift -1"},
@@ -220,6 +301,7 @@ def run(ctx):
                 "dropped/duplicated/emptied, 12 wrapping contexts); interp.New with random option lists and interp.Params with odd arguments. "
                 "non-trivial = distinct program texts that parse and were run to completion")
     code_leg(ctx, binp, 500 if ctx.tier == "quick" else 6000)
+    code_leg2(ctx, binp, 400 if ctx.tier == "quick" else 5000)
     witnesses(ctx, binp)
     search(ctx, binp)
     ctx.assumptions += [
